@@ -136,6 +136,7 @@ class Acc:
         self.nontrivial = 0
         self.observed = []
         self.worst = 0.0          # worst err/bound ratio seen on passing ALG checks (diagnostic)
+        self.worst_it = 0.0       # same for the iterative-solver residual checks
 
     def violation(self, check, sig, point, **detail):
         sig = dict(sig, check=check)
@@ -149,7 +150,7 @@ class Acc:
         out = {'states': max(self.points, 1), 'transitions': max(self.trans, 1), 'checks': self.checks,
                'nontrivial': self.nontrivial > 0, 'key': self.keys or None,
                'outcome': sorted(self.outcomes) or ['none'], 'violations': self.V, 'observed_only': self.observed,
-               'alg_margin': self.worst}
+               'alg_margin': self.worst, 'solver_margin': self.worst_it}
         out.update(extra)
         return out
 
@@ -234,6 +235,8 @@ def judge_solution(acc, A, x, b, solver, lda):
         acc.checks += 1
         res = lm.rel_residual(A, x, b)
         tol = 2 * (5 * CG_TOL if lda else CG_TOL)
+        if res <= tol:
+            acc.worst_it = max(acc.worst_it, res / tol)
         return bool(res <= tol), {'rel_residual': res, 'tol': tol}
     err, scale = lm.product_err(A, x, b)
     ok, bound = check_alg(acc, err, scale)
